@@ -332,14 +332,14 @@ Definition z_of_out (o : z_out d_arr * z_log) : sx :=
   end.
 Definition z_of_runs (rs : list (list (z_out d_arr * z_log))) : sx := L (map (fun r => L (map z_of_out r)) rs).
 
-(* (shape objects history) -> (code_ok model spec counter-model) ; each = per request, per object accessed:
+(* (shape objects history) -> (translated-code model spec counter-model) ; each = per request, per object accessed:
    (class shape dtype values calls) *)
 Definition wire_47 (x : sx) : sx :=
   match x with
   | L [shape; L objs; L hist] =>
       let w := z_wire_world (d_label_arr (to_Zs shape)) objs in
       let hs := z_wire_hist hist in
-      L [of_bool (match z_code with [] => false | _ => true end);
+      L [L (map (fun t => match t with (op, a, b) => L [I op; I a; I b] end) c04_ds_code);
          z_of_runs (z_run d_getitem z_code w (z_init w) hs);
          z_of_runs (z_spec_run d_getitem w (fun _ => None) hs);
          z_of_runs (z_run d_getitem z_code_inplace w (z_init w) hs)]
